@@ -94,8 +94,26 @@ def eval_both(expr, gvals, acc, api, builtins=False, locals_=None, case=None, ki
         ev = RefEval(g, opts, lib, refeval.Propagate, builtins=builtins, bool_num=variant)
         try:
             outcome[variant] = ('ok', ev.ev(expr, dict(locals_) if locals_ is not None else None), logs)
-        except (Domain, Unspecified):
+        except Unspecified:
             outcome[variant] = None
+        except Domain:
+            outcome[variant] = None
+            if variant is False:
+                # an arithmetic domain error on supported operand types (x / 0, datetime + NaN, huge ** huge): the VALUE is left to the
+                # implementation, but it is a value (or a runtime error) - never a host exception
+                g2 = dict(gvals)
+                try:
+                    with core.alarm(10):
+                        evaluate_expression(expr, {'globals': g2, 'logFn': None}, dict(locals_) if locals_ is not None else None, builtins)
+                    acc.count('domain_error_cases_evaluated')
+                except core.CaseTimeout:
+                    acc.timeouts += 1
+                except rt_err:
+                    acc.count('domain_error_cases_evaluated')
+                except Exception as exc:  # pylint: disable=broad-except
+                    acc.violation(kind + '-host-exception-on-domain-error', f'expr={json.dumps(expr, default=repr)[:400]} operands={ {k: v for k, v in gvals.items() if len(k) == 2}!r}: '
+                                  f'{type(exc).__name__}: {exc}', case or {'expr': expr, 'globals': refval.enc({k: v for k, v in gvals.items() if k in ('aa', 'bb')})})
+                    return 'violation'
         except RefRuntimeError as exc:
             outcome[variant] = ('rterr', str(exc), logs)
         if variant is False and outcome[False] is None:
@@ -155,6 +173,18 @@ def run_matrix(spec, acc, api):
             acc.case((op, refval.canon(a), refval.canon(b), refval.rtype(a), refval.rtype(b), spec['env']['TZ']), a is not None and b is not None)
             acc.cover('op_type_type', f'{op} {refval.rtype(a)} {refval.rtype(b)}')
             acc.count('verdict_' + v)
+    if spec['rem'] == 0:
+        # non-finite operands of the arithmetic operators (reachable in the language through 1e308 * 10): comparisons with NaN are
+        # outside the value order (C11 excludes NaN), so only + - * / % ** are driven, against numbers and datetimes, both orders
+        nonfinite = [float('inf'), float('-inf'), float('nan')]
+        others = [0, 1.5, -2, 1e308, datetime.datetime(2020, 1, 1), datetime.date(2020, 1, 1), datetime.datetime(2020, 6, 1, 12, tzinfo=TZ.utc)]
+        for op in ('+', '-', '*', '/', '%', '**'):
+            e = {'binary': {'op': op, 'left': VAR('aa'), 'right': VAR('bb')}}
+            for a, b in list(itertools.product(nonfinite, others)) + list(itertools.product(others, nonfinite)) + list(itertools.product(nonfinite, repeat=2)):
+                v = eval_both(e, {'aa': a, 'bb': b, **hosts}, acc, api, kind='nonfinite')
+                acc.case((op, repr(a), repr(b), spec['env']['TZ']), True)
+                acc.count('verdict_' + v)
+                acc.count('nonfinite_operand_cases')
     for op in '!-':
         e = {'unary': {'op': op, 'expr': VAR('aa')}}
         for a in P:
